@@ -1457,15 +1457,35 @@ def while_loop(cond, body, loop_vars, **kw):
         raise NoContract('while_loop does not terminate concretely')
     c.loops.append(('unroll', n))
     return state
-  spec = mode[1]
-  n = 0
-  for _ in builtin_range(spec.min_iters):
-    if not cond_val(state):
-      c.loops.append(('unroll-early-exit', n))
-      return state
-    state = tuple(body(*state))
-    n += 1
-  return spec.apply(c, cond, body, state)
+  if mode[0] == 'tail':
+    # Exit state of ANY run with >= k iterations: the last k iterations applied to an
+    # arbitrary (havocked) state.  Sound over-approximation; exact facts established by the
+    # last iterations (e.g. "the bias was just set to output_min") survive.
+    k = int(mode[1])
+    hv = _havoc(state, 'loop')
+    if len(mode) > 2 and mode[2] is not None:
+      for name, b in mode[2](hv):
+        c.assume(b, 'loop-entry assumption ' + name)
+    st = hv
+    for _ in builtin_range(k):
+      st = tuple(body(*st))
+    c.loops.append(('tail', k))
+    return st
+  raise NoContract('unknown loop mode %r' % (mode,))
+
+
+def _havoc(v, prefix):
+  if isinstance(v, Tensor):
+    if v.dtype.kind == 'f':
+      return sym(v.a.shape, E.fresh_name(prefix), v.dtype)
+    return v
+  if isinstance(v, tuple):
+    return tuple(_havoc(x, prefix) for x in v)
+  if isinstance(v, list):
+    return [_havoc(x, prefix) for x in v]
+  if isinstance(v, dict):
+    return {k: _havoc(x, prefix) for k, x in v.items()}
+  return v
 
 
 def map_fn(fn, elems, **kw):
